@@ -205,3 +205,25 @@ fix_realloc_good (mpz_ptr w, mpz_srcptr u)
   MPN_COPY (PTR (w), PTR (u), an);
   SIZ (w) = n;
 }
+
+/* R-SIGN.count positive: the signed size as a limb count */
+void
+fix_count_bad (mpz_ptr w, mpz_srcptr u, unsigned long c)
+{
+  mp_size_t n = SIZ (u);
+  mp_size_t an = ABS (n);
+  MPZ_REALLOC (w, an + 1);
+  PTR (w)[an] = mpn_lshift (PTR (w), PTR (u), n, (unsigned) (c % GMP_NUMB_BITS) + 1);
+  SIZ (w) = n;
+}
+
+/* negative */
+void
+fix_count_good (mpz_ptr w, mpz_srcptr u, unsigned long c)
+{
+  mp_size_t n = SIZ (u);
+  mp_size_t an = ABS (n);
+  MPZ_REALLOC (w, an + 1);
+  PTR (w)[an] = mpn_lshift (PTR (w), PTR (u), an, (unsigned) (c % GMP_NUMB_BITS) + 1);
+  SIZ (w) = n;
+}
